@@ -1,6 +1,6 @@
 (* Properties_C09.v -- C09: polar decomposition and Hermitian square root. *)
 From Coq Require Import Reals Lra List.
-From Epsic Require Import Scalar SpecPauli SpecJones CSqrt Gen_C09 Tie_C09_sqrt Tie_C09_polar.
+From Epsic Require Import Scalar SpecPauli SpecJones CSqrt PolarModel Gen_C09 Tie_C09_sqrt Tie_C09_polar Tie_C09_polarD.
 Import ListNotations.
 Local Open Scope R_scope.
 
@@ -54,20 +54,55 @@ Theorem C09_polar_hermitian_input p00r p00i p01r p01i p10r p10i p11r p11i :
 Proof. exact (tie_stageB p00r p00i p01r p01i p10r p10i p11r p11i). Qed.
 Print Assumptions C09_polar_hermitian_input.
 
-(* FULL STATEMENT, proved only in part: "d h u reproduces J, h positive definite with det 1, u with det 1".
-   Proved: d^2 = det J and unimodularity (stage A), the Hermitian factor's input is lossless with
-   determinant 1 (stage B), h = its square root with h^2 = that input, h0 >= 0, det h >= 0
-   (C09_hermitian_square_root).  NOT proved here: the unitary factor (u = real(unitary(h^-1 j)) drops
-   nothing, det u = 1) and the composition of the stages inside polar(); those are checked on every
-   run by the plain-build oracle polar_reconstruct_plain over structure classes and scales. *)
-Theorem C09_polar_reconstruction_partial j00r j00i j01r j01i j10r j10i j11r j11i :
-  let J := M2of j00r j00i j01r j01i j10r j10i j11r j11i in
-  let l := polar_stageA (OO:=ROps) j00r j00i j01r j01i j10r j10i j11r j11i in
-  let d : C := (nth 0 l 0, nth 1 l 0) in
-  cnz (m2det J) ->
-  cmul d d = m2det J /\ m2scale d (m2scale (cinv d) J) = J /\ m2det (m2scale (cinv d) J) = c1.
+(* the four stages composed.  d and the unimodular k = J/d are stage A's (generated); r is any real
+   Hermitian quaternion with phi(r)^2 = k k^dagger and det r >= 0 -- the contract C09_hermitian_square_root
+   proves for the code's sqrt on every path, applied to the lossless real part of stage B
+   (C09_polar_hermitian_input); u and the dropped imaginary parts are stage D's (generated).
+   Then: det h = 1, real() drops nothing, u has unit determinant, and d h u = J. *)
+Lemma m2_eta a : M2of (fst (m00 a)) (snd (m00 a)) (fst (m01 a)) (snd (m01 a)) (fst (m10 a)) (snd (m10 a)) (fst (m11 a)) (snd (m11 a)) = a.
+Proof. destruct a as [[? ?] [? ?] [? ?] [? ?]]. reflexivity. Qed.
+
+Lemma firstn8_spec (l : list R) a0 a1 a2 a3 a4 a5 a6 a7 : firstn 8 l = [a0; a1; a2; a3; a4; a5; a6; a7] ->
+  nth 0 l 0 = a0 /\ nth 1 l 0 = a1 /\ nth 2 l 0 = a2 /\ nth 3 l 0 = a3 /\ firstn 4 (skipn 4 l) = [a4; a5; a6; a7].
 Proof.
-  intros J l d Hnz.
-  destruct (C09_polar_scalar_factor j00r j00i j01r j01i j10r j10i j11r j11i) as [A B].
-  destruct (B Hnz) as [B1 [B2 _]]. conj_split; assumption.
+  intros H. do 8 (destruct l as [|? l]; [ discriminate H | ]). cbn [firstn] in H.
+  injection H as H0 H1 H2 H3 H4 H5 H6 H7. subst. cbn [nth firstn skipn]. conj_split; reflexivity.
 Qed.
+
+Theorem C09_polar_decomposition j00r j00i j01r j01i j10r j10i j11r j11i r0 r1 r2 r3 :
+  let J := M2of j00r j00i j01r j01i j10r j10i j11r j11i in
+  let lA := polar_stageA (OO:=ROps) j00r j00i j01r j01i j10r j10i j11r j11i in
+  let d : C := (nth 0 lA 0, nth 1 lA 0) in
+  let k := m2scale (cinv d) J in
+  let Hm := phiHc (cofR r0) (cofR r1) (cofR r2) (cofR r3) in
+  let lD := polar_stageD (OO:=ROps) r0 r1 r2 r3 (fst (m00 k)) (snd (m00 k)) (fst (m01 k)) (snd (m01 k)) (fst (m10 k)) (snd (m10 k)) (fst (m11 k)) (snd (m11 k)) in
+  let u := phiUc (cofR (nth 0 lD 0)) (cofR (nth 1 lD 0)) (cofR (nth 2 lD 0)) (cofR (nth 3 lD 0)) in
+  cnz (m2det J) -> m2mul Hm Hm = m2mul k (m2herm k) -> 0 <= r0 * r0 - r1 * r1 - r2 * r2 - r3 * r3 ->
+  cmul d d = m2det J /\ m2det Hm = c1 /\
+  firstn 4 (skipn 4 lD) = [0; 0; 0; 0] /\
+  nth 0 lD 0 * nth 0 lD 0 + nth 1 lD 0 * nth 1 lD 0 + nth 2 lD 0 * nth 2 lD 0 + nth 3 lD 0 * nth 3 lD 0 = 1 /\
+  m2scale d (m2mul Hm u) = J.
+Proof.
+  intros J lA d k Hm lD u Hnz Hsq Hpos.
+  pose proof (tie_stageA_d_squared j00r j00i j01r j01i j10r j10i j11r j11i) as Hd. fold J lA d in Hd.
+  assert (HH : m2herm Hm = Hm) by apply phiH_real_hermitian.
+  assert (Hk : m2det k = c1) by (apply (polar_j_unimodular J d Hd Hnz)).
+  pose proof (detH_spec r0 r1 r2 r3) as HdetS. fold Hm in HdetS.
+  assert (HdetH : m2det Hm = c1).
+  { apply (det_of_hermitian_root Hm k HH Hsq Hk). rewrite HdetS. cbn [cofR fst]. exact Hpos. }
+  assert (Hone : r0 * r0 - r1 * r1 - r2 * r2 - r3 * r3 <> 0).
+  { rewrite HdetS in HdetH. pose proof (f_equal fst HdetH) as E. cbn [cofR c1 fst] in E. lra. }
+  destruct (tie_stageD r0 r1 r2 r3 (fst (m00 k)) (snd (m00 k)) (fst (m01 k)) (snd (m01 k)) (fst (m10 k)) (snd (m10 k)) (fst (m11 k)) (snd (m11 k)) Hone)
+    as [TD _]. fold lD in TD. rewrite m2_eta in TD. fold Hm in TD.
+  destruct (polar_reconstruction J Hm d Hd Hnz HH Hsq HdetH) as [R1 [I0 [I1 [I2 [I3 [RU RN]]]]]].
+  fold k in R1, I0, I1, I2, I3, RU, RN.
+  set (w := m2mul (m2inv Hm) k) in *.
+  destruct (firstn8_spec lD _ _ _ _ _ _ _ _ TD) as [T0 [T1 [T2 [T3 T4]]]].
+  subst u. conj_split.
+  - exact Hd.
+  - exact HdetH.
+  - rewrite T4, I0, I1, I2, I3. reflexivity.
+  - rewrite T0, T1, T2, T3. exact RN.
+  - rewrite T0, T1, T2, T3, RU. exact R1.
+Qed.
+Print Assumptions C09_polar_decomposition.
